@@ -15,6 +15,8 @@ package vrt
 import (
 	"fmt"
 	"runtime"
+	"runtime/debug"
+	"runtime/metrics"
 	"sort"
 	"strings"
 	"sync"
@@ -461,10 +463,52 @@ type Exec struct {
 
 var execMu sync.Mutex
 
+// The race monitor identifies locations by address, so no address may be
+// recycled inside one execution: the collector is off while an execution with
+// the monitor runs, and is run by hand between executions once enough has been
+// allocated (gcHold/gcRelease nest: Explore holds it across all its executions).
+var (
+	gcHeld    int
+	gcOld     int
+	gcSample  = []metrics.Sample{{Name: "/gc/heap/allocs:bytes"}}
+	gcLastRun uint64
+)
+
+func gcHold() {
+	if gcHeld == 0 {
+		gcOld = debug.SetGCPercent(-1)
+		metrics.Read(gcSample)
+		gcLastRun = gcSample[0].Value.Uint64()
+	}
+	gcHeld++
+}
+
+func gcRelease() {
+	gcHeld--
+	if gcHeld == 0 {
+		debug.SetGCPercent(gcOld)
+	}
+}
+
+// gcBetween runs the collector if more than 192 MiB were allocated since its last run.
+func gcBetween() {
+	metrics.Read(gcSample)
+	if now := gcSample[0].Value.Uint64(); now-gcLastRun > 192<<20 {
+		runtime.GC()
+		metrics.Read(gcSample)
+		gcLastRun = gcSample[0].Value.Uint64()
+	}
+}
+
 // RunOnce executes body as thread 0 under the given choice prefix.
 func RunOnce(cfg Config, prefix []int, body func()) *Exec {
 	execMu.Lock()
 	defer execMu.Unlock()
+	if cfg.Races {
+		gcHold()
+		defer gcRelease()
+		defer gcBetween()
+	}
 	if cfg.MaxSteps == 0 {
 		cfg.MaxSteps = 100000
 	}
@@ -513,6 +557,10 @@ type Stats struct {
 // cfg.MaxPreempt, calling check on each.  check returns false to stop.
 func Explore(cfg Config, body func(), check func(x *Exec) bool) Stats {
 	st := Stats{Bound: cfg.MaxPreempt, Outcomes: map[string]int{}, Complete: true}
+	if cfg.Races {
+		gcHold()
+		defer gcRelease()
+	}
 	states := map[uint64]struct{}{}
 	if cfg.NShard == 0 {
 		cfg.NShard = 1
